@@ -62,6 +62,21 @@ def cells(tier):
             out.append({'kind': 'inject', 'backend': b, 'K': 40})
         out.append({'kind': 'flush', 'backend': 'dict', 'msgs': 2})
         out.append({'kind': 'flush', 'backend': 'redis', 'msgs': 1})
+        # bounded store pools
+        out.append({'kind': 'retry', 'backend': 'dict', 'msgs': 2, 'fails': 1,
+                    'store_pool': 1})
+        out.append({'kind': 'retry', 'backend': 'redis', 'msgs': 1,
+                    'fails': 2, 'store_pool': 1})
+        out.append({'kind': 'retry', 'backend': 'disk', 'msgs': 1,
+                    'fails': 2, 'store_pool': 1})
+        out.append({'kind': 'load', 'backend': 'disk', 'store_pool': 2,
+                    'extra': 1})
+        out.append({'kind': 'load', 'backend': 'redis', 'store_pool': 2,
+                    'extra': 1})
+        out.append({'kind': 'flush', 'backend': 'dict', 'msgs': 2,
+                    'store_pool': 1})
+        out.append({'kind': 'flush', 'backend': 'disk', 'msgs': 2,
+                    'store_pool': 1})
     else:
         for b in ('dict', 'disk', 'redis', 'cloud'):
             out.append({'kind': 'retry', 'backend': b, 'msgs': 2, 'fails': 1})
@@ -123,6 +138,8 @@ class World(object):
         kw = {}
         if cell.get('relay_pool'):
             kw['relay_pool'] = cell['relay_pool']
+        if cell.get('store_pool'):
+            kw['store_pool'] = cell['store_pool']
         self.queue = Queue(self.store, self.relay, backoff=backoff,
                            bounce_factory=lambda e, r: None, **kw)
 
@@ -196,6 +213,8 @@ def run_retry(cell):
     info = dict(backend=cell['backend'], kind='retry',
                 relay_pool=cell.get('relay_pool', 0))
     api.observe('calls', [[c['tag'], c['attempts']] for c in w.relay.calls])
+    api.prove(len(ids) == cell['msgs'], 'enqueue-never-returned',
+              returned=len(ids), store_pool=cell.get('store_pool', 0), **info)
     w.check_not_early(info, ids)
     w.check_not_forgotten(info, ids)
     api.prove(not qc.ERRORS, 'exception-in-queue-greenlet',
